@@ -172,3 +172,12 @@ CHECKS["C18"] = _c(
     "Trusted: the in-memory model (60 lines), aws-sdk-s3 as client. CopyObject = S3's default COPY metadata directive. States the statement does not pin (an upload that is not completable but was accepted; suffix range on an empty object) are marked unknown and not judged until rewritten.",
     "DESIGN.md 3/C18",
 )
+
+CHECKS["C19"] = _c(
+    "fault_enumeration",
+    "runtime monitoring with fault injection at the request boundary: s3s-fs behind S3Service::call in a scratch root; the request future is polled by hand so that it can be dropped after any poll; body faults are injected by the framed request body (error / stall at frame k); a GET of the key and a listing of the root after every fault; concurrent writers and readers on an 8-thread runtime",
+    "harness (store driver; framed body with error / stall injection; hand-polled request future)",
+    "Previous state absent / present x one fault per run: transport error instead of frame k of an n-frame upload (every k thorough; first / middle / last in most quick groups), client stall before frame k then drop of the request, request dropped after p polls (p = 1..48), wrong checksum of each algorithm the backend verifies (right ones as controls), chunk-signed upload with a corrupted signature in chunk k or cut short after chunk k, CopyObject with a missing source or dropped after p polls, CompleteMultipartUpload naming a missing part / parts out of order / dropped after p polls. Afterwards: refused => the previous content (or absence); abandoned => the previous or the complete new content; acknowledged => the complete new content; never a .tmp.* file in the root. Concurrency: 2-8 writers (uploads with Pending schedules, CopyObject from distinct sources) with distinct contents of 2 KB-2 MB to one key with 1-3 overlapping readers: the stored content is exactly one acknowledged writer's bytes, every overlapping read that returns content returns the previous content or one writer's complete bytes, no temporary file remains. Held on the executions observed; the evidence lists (fault, previous state, position, outcome, state after) cells, distinct completion orders and the winner's completion rank.",
+    "Trusted: std::fs directory listing; the hand-polling driver (300 us between polls so that tokio's blocking pool makes progress; 12 ms settle time after a drop). Not covered: process crash / power loss between write and rename and syscall-level faults (ENOSPC, EIO) - the quantifier's crash points are covered only as 'request dropped at poll p'. Reads that are answered with an error while the object is being replaced return no content and are counted, not judged.",
+    "DESIGN.md 3/C19",
+)
